@@ -1,6 +1,7 @@
 import SE.Proofs.RegistryPipe
 import SE.Proofs.SuffixFree
 import SE.Proofs.HelpUniform
+import SE.Proofs.AvoidsPre
 import SE.Spec.FloatLaws
 /-
 C08 — A conflicting event is dropped alone and harms nothing else.
@@ -15,6 +16,10 @@ of one metric name carry the help string of the first one: `helpUniform_getOrCre
 `helpUniform_help_consistent`. Together: on a well-formed, suffix-free, help-uniform registry without
 pre-registered families (every registry a history reaches from the empty one is such) "accepted" does imply
 "the scrape stays healthy" — `gather_ok_preserved`, `gather_ok_preserved_step`, `gather_ok_preserved_history`.
+With pre-registered families the same holds as long as the statsd metric names stay clear of them (`AvoidsPre`,
+SE/Spec/Registry.lean: not the name of a pre-registered family, no `_sum/_count/_bucket` companion relation with one
+in either direction) and the pre-registered families scrape fine by themselves: `gather_ok_of_invariants_pre`,
+`gather_ok_preserved_pre`, `gather_ok_preserved_pre_step`, `gather_ok_preserved_pre_history`.
 The unguarded claim `gather_ok_preserved_statement` (any well-formed registry that scrapes fine) is still false:
 the exporter's checks do not see the pre-registered families (`gather_ok_preserved_counterexample`, the open
 finding SE.Props.C03.preregistered_name_collision), and an arbitrary — unreachable — registry need not be
@@ -379,6 +384,59 @@ theorem gather_ok_preserved_history (rx : Rx) (p p' : Pipe V) (ops : List (PipeO
   gatherOk_of_suffixFree_helpUniform (SuffixFree_runOps rx ops hw hs h).2 (HelpUniform_runOps rx ops hw hh h).2
     (by rw [pre_runOps rx ops h, hpre])
 
+/-! ### … and next to pre-registered families, as long as the metric names stay clear of them -/
+
+/-- `getOrCreate` never touches the pre-registered families -/
+theorem getOrCreate_keeps_pre (r r' : Reg V) (ty : MType) (a : GetArgs V) (now : Int) :
+    r.getOrCreate ty a now = .ok (.ok r') → r'.pre = r.pre :=
+  fun hg => (getOrCreate_others hg).2
+
+/-- suffix-free, help-uniform, the pre-registered families consistent among themselves, and every statsd metric
+    that has a series clear of them (`AvoidsPre`): `Gather` succeeds -/
+theorem gather_ok_of_invariants_pre (r : Reg V) (hs : SuffixFree r) (hh : HelpUniform r)
+    (hp : ({ metrics := [], pre := r.pre } : Reg V).gatherOk = true)
+    (hav : ∀ m ∈ r.metrics, m.series.isEmpty = false → AvoidsPre r.pre m.name m.ty = true) : r.gatherOk = true :=
+  gatherOk_of_invariants_pre hs hh hp hav
+
+/-- **A request that the registry accepts keeps `Gather` healthy — also next to pre-registered families**, provided
+    these scrape fine by themselves and every metric of the resulting registry (the requested one included) stays
+    clear of them: `gather_ok_preserved` without `r.pre = []`. The exporter's own checks never look at `Reg.pre`;
+    `AvoidsPre` is exactly what they would have to look at. -/
+theorem gather_ok_preserved_pre (r r' : Reg V) (ty : MType) (a : GetArgs V) (now : Int) :
+    RegWF r → SuffixFree r → HelpUniform r → ({ metrics := [], pre := r.pre } : Reg V).gatherOk = true →
+    (∀ m ∈ r'.metrics, AvoidsPre r'.pre m.name m.ty = true) → r.getOrCreate ty a now = .ok (.ok r') →
+    r'.gatherOk = true :=
+  fun hw hs hh hp hav hg =>
+    gatherOk_of_invariants_pre_all (SuffixFree_getOrCreate hw hs hg) (HelpUniform_getOrCreate hw hh hg)
+      (by rw [(getOrCreate_others hg).2]; exact hp) hav
+
+/-- … it is enough that the metrics that have a series stay clear of them -/
+theorem gather_ok_preserved_pre_live (r r' : Reg V) (ty : MType) (a : GetArgs V) (now : Int) :
+    RegWF r → SuffixFree r → HelpUniform r → ({ metrics := [], pre := r.pre } : Reg V).gatherOk = true →
+    (∀ m ∈ r'.metrics, m.series.isEmpty = false → AvoidsPre r'.pre m.name m.ty = true) →
+    r.getOrCreate ty a now = .ok (.ok r') → r'.gatherOk = true :=
+  fun hw hs hh hp hav hg =>
+    gatherOk_of_invariants_pre (SuffixFree_getOrCreate hw hs hg) (HelpUniform_getOrCreate hw hh hg)
+      (by rw [(getOrCreate_others hg).2]; exact hp) hav
+
+/-- … through a whole pipeline step -/
+theorem gather_ok_preserved_pre_step (p p' : Pipe V) (rx : Rx) (ev : Ev V) (tags : Labels) (hw : RegWF p.reg)
+    (hs : SuffixFree p.reg) (hh : HelpUniform p.reg)
+    (hp : ({ metrics := [], pre := p.reg.pre } : Reg V).gatherOk = true)
+    (hav : ∀ m ∈ p'.reg.metrics, m.series.isEmpty = false → AvoidsPre p'.reg.pre m.name m.ty = true)
+    (h : handleEvent p rx ev tags = some (.ok p')) : p'.reg.gatherOk = true :=
+  gatherOk_of_invariants_pre (SuffixFree_handleEvent hw hs h) (HelpUniform_handleEvent hw hh h)
+    (by rw [pre_handleEvent h]; exact hp) hav
+
+/-- … and through every history (event batches, sweeps, clock changes, reloads, in any order) -/
+theorem gather_ok_preserved_pre_history (rx : Rx) (p p' : Pipe V) (ops : List (PipeOp V)) (hw : RegWF p.reg)
+    (hs : SuffixFree p.reg) (hh : HelpUniform p.reg)
+    (hp : ({ metrics := [], pre := p.reg.pre } : Reg V).gatherOk = true)
+    (hav : ∀ m ∈ p'.reg.metrics, m.series.isEmpty = false → AvoidsPre p'.reg.pre m.name m.ty = true)
+    (h : runOps rx p ops = some (.ok p')) : p'.reg.gatherOk = true :=
+  gatherOk_of_invariants_pre (SuffixFree_runOps rx ops hw hs h).2 (HelpUniform_runOps rx ops hw hh h).2
+    (by rw [pre_runOps rx ops h]; exact hp) hav
+
 /-! ### The unguarded reading still fails: pre-registered families, and registries no history reaches
 
 "Accepted requests never make the scrape fail" for *any* well-formed registry that scrapes fine
@@ -463,6 +521,11 @@ theorem gather_ok_preserved_statement_false : ¬ gather_ok_preserved_statement :
   obtain ⟨r2, h2, hw, _, _, hg1, hg2⟩ := gather_ok_preserved_counterexample
   have := h Int regPre r2 .counter (args nameX [] helpH) 0 hw hg1 (step_spec h2)
   rw [hg2] at this; cases this
+
+/-- what the refutation lacks of the hypotheses of `gather_ok_preserved_pre`: the requested counter `x` does not
+    stay clear of the pre-registered families (it has the name of one) -/
+theorem gather_ok_preserved_counterexample_violates_avoidsPre :
+    AvoidsPre regPre.pre nameX .counter = false := by with_unfolding_all decide
 
 /-- a registry no history reaches: the counter `x` with a vector without labels (help "h", one live child) and a
     vector for the label `k` (help "g", no child) -/
